@@ -51,14 +51,14 @@ def jobs(tier, seed):
     SOLV = SRCS + [LB + "ml_decoding/of_ml_tool.c", LB + "of_symbol.c"]
     sfn = ["of_linear_binary_code_solve_dense_system", "of_linear_binary_code_triangularize_dense_system", "of_linear_binary_code_col_forward_elimination",
            "of_linear_binary_code_backward_substitution"]
-    sym = [(1, 1), (2, 2), (3, 2), (3, 3), (4, 3), (4, 4)] if tier == "quick" else [(p, q) for q in range(1, 6) for p in range(q, q + 3)]
+    sym = [(1, 1), (2, 2), (3, 2), (3, 3), (4, 3)] if tier == "quick" else [(p, q) for q in range(1, 6) for p in range(q, q + 3)]
     for (p_, q_) in sym:
         js.append(Job("solver.symbolic.%dx%d" % (p_, q_), "solver_symbolic_matrix", "c18_solver.c", sfn, repo_sources=SOLV, checks=CHECKS,
-                      defines={"OFV_P": p_, "OFV_Q": q_, "OFV_MODE": 0}, unwind=40, object_bits=12, timeout=1500, mem_gb=8, status="bounded", solver="cadical",
+                      defines={"OFV_P": p_, "OFV_Q": q_, "OFV_MODE": 0}, unwind=40, object_bits=12, timeout=1500, mem_gb=20, status="bounded", solver="kissat",
                       bound="p x q in %s, every matrix bit and right-hand side symbolic, symbol length 1" % (sym,)))
-    conc = [(32, 31), (33, 32), (34, 33), (65, 64)] if tier == "quick" else [(q + 1, q) for q in (1, 2, 31, 32, 33, 63, 64, 65, 96)]
+    conc = [(32, 31), (33, 32), (34, 33)] if tier == "quick" else [(q + 1, q) for q in (1, 2, 31, 32, 33, 63, 64, 65)]
     for (p_, q_) in conc:
         js.append(Job("solver.triangular.%dx%d" % (p_, q_), "solver_word_boundaries", "c18_solver.c", sfn, repo_sources=SOLV, checks=CHECKS,
-                      defines={"OFV_P": p_, "OFV_Q": q_, "OFV_MODE": 1}, unwind=p_ + 5, object_bits=12, timeout=1500, mem_gb=8, status="bounded",
+                      defines={"OFV_P": p_, "OFV_Q": q_, "OFV_MODE": 1}, unwind=p_ + 5, object_bits=12, timeout=1500 if tier == "quick" else 9000, mem_gb=8, status="bounded",
                       bound="concrete all-ones lower-triangular matrices with q in %s, right-hand sides symbolic" % ([q for _, q in conc],)))
     return js
